@@ -593,7 +593,7 @@ def dedup(l):
     return out
 
 
-def pinned_expected(case, pats, is_case, is_re, fast, defects):
+def pinned_expected(case, pats, is_case, is_re, fast, defects, extra_others=()):
     """What the pinned commit returns (as a sorted id list with multiplicity) if exactly the defect
     classes in `defects` are present and everything else is as specified.  Python mirror of the
     stage semantics, used only to *classify* a failure (never to accept one)."""
@@ -662,7 +662,7 @@ def pinned_expected(case, pats, is_case, is_re, fast, defects):
                     out.append(c[0])
     direct_found = list(found)
     fresh = []
-    for c in case.others:
+    for c in list(case.others) + list(extra_others):
         if c[0] in found:
             continue
         found.append(c[0])
@@ -737,8 +737,18 @@ def classify(case, pats, is_case, is_re, fast, got):
                 ds.update(a.split("+"))
             if "multiroot" in ds:
                 ds.add("absrepeat")
+            extras = [()]
+            if "nonunique" in ds and case.variant == "pipeline":
+                # which children of the directly visited parents were *also* reached through another root
+                # kind cannot be observed from outside; it only matters for children the first-match lookup
+                # skipped, so every subset of those is tried
+                absp = [p for p in pats if is_abs(p, is_case, is_re)]
+                inb = set(case.base)
+                rel = [c for g in case.groups for c in g if c[0] in inb and c[1] in absp]
+                rel = [c for k, c in enumerate(rel) if c not in rel[:k]][:7]
+                extras = [tuple(c for k, c in enumerate(rel) if m >> k & 1) for m in range(1 << len(rel))]
             try:
-                if pinned_expected(case, pats, is_case, is_re, fast, ds) == got:
+                if any(pinned_expected(case, pats, is_case, is_re, fast, ds, ex) == got for ex in extras):
                     sigs = []
                     for a in sub:
                         if a == "absrepeat" and "multiroot" in ds:
@@ -1044,19 +1054,6 @@ def metamorphic(runner, case, pats, is_case, is_re, fast, rng, res):
 # --------------------------------------------------------------------------------------------
 # shard worker
 # --------------------------------------------------------------------------------------------
-def run_one(runner, res, w, x, rng=None, meta=True):
-    """x complete (with pats etc.) -> checks it; returns list of failures (kind, sig, input, detail)"""
-    out = []
-    case = Case(w, x)
-    if not case.ok:
-        res.dist(case.why)
-        return out
-    r = runner.check(case, x["pats"], x["is_case"], x["is_re"], x["fast"], x.get("filter", "none"))
-    if r is not None:
-        out.append((r[0], r[1], x, r[2]))
-    return out
-
-
 def report(res, runner, w, kind, sig, x, detail, do_shrink=True):
     if kind in ("spec", "spec+corr", "raise"):
         if do_shrink:
@@ -1305,5 +1302,13 @@ def run(ctx):
                               "size": "large" if rng.random() < 0.2 else "small"})
         args.append((ctx.seed, ctx.tier, si, nshards, budget, specs, per_net))
     shard.run_shards(ctx, shard_worker, args)
+    ht, hf = ctx.hist.get("hyp:True", 0), ctx.hist.get("hyp:False", 0)
+    if ht + hf:
+        ctx.extra["stage_theorem_hypotheses_hold_fraction"] = round(ht / float(ht + hf), 3)
+        ctx.partial_notes.append(
+            "the decidable hypotheses of the stage theorems (duplicate-free candidates, unique sibling keys where an index "
+            "answers, keys present or no empty pattern, no unfiltered bypass elements in get_h*) held for %d of %d driver "
+            "evaluations; on the others the model is still compared with the implementation and P is still evaluated, only "
+            "the theorem does not speak" % (ht, ht + hf))
     # failing-input search when only the correspondence / an obligation broke is inherent here: every
     # case evaluates P on the implementation as well, so the neighbourhood has been searched already.
